@@ -482,6 +482,11 @@ func init() {
 	// C04's "delivered exactly once ... no accepted telegram is lost, however slowly the application
 	// reads" for telegrams of every shape a tunnel of the matching layer carries
 	register("both", &h.Scenario{Name: "C04-fullstack-inbound-stop-and-wait-three-shapes", Prop: "C04", P: 1, F: 0, D: 1, Run: inboundWireRun(), Check: inboundWireOracle("C04")})
+	// C17's "handed to the application in the order accepted, whatever the pace at which it reads":
+	// what is handed over is what was accepted, for every telegram shape (seeded change C17-l: a
+	// bus-monitor / raw frame that aliases the UDP receive buffer shows the latest datagram's octets
+	// in every telegram the application still holds)
+	register("both", &h.Scenario{Name: "C17-fullstack-inbound-stop-and-wait-three-shapes", Prop: "C17", P: 1, F: 0, D: 1, Run: inboundWireRun(), Check: inboundWireOracle("C17")})
 }
 
 // ---- C12: group events after a rejected one ----
@@ -632,4 +637,97 @@ func groupAlikeOracle(prop string) func(tr *mc.Trace) []h.Violation {
 func init() {
 	register("both", &h.Scenario{Name: "C12-inbound-group-writes-that-look-alike", Prop: "C12", P: 0, F: 0, D: -1, Run: groupAlikeRun(), Check: groupAlikeOracle("C12")})
 	register("both", &h.Scenario{Name: "C05-inbound-group-writes-that-look-alike", Prop: "C05", P: 0, F: 0, D: -1, Run: groupAlikeRun(), Check: groupAlikeOracle("C05")})
+}
+
+// ---- router client: three routing indications of one shape through the real UDP receiver ----
+
+// routerWireRun: as inboundWireRun for the router client (no acknowledgements: the indications
+// arrive 1 ms apart); the application reads them afterwards or one behind. What it holds at the end
+// is compared octet for octet with what the routers sent (C14: "every received routing indication
+// is handed to Inbound exactly once"; C17: handed over as accepted).
+func routerWireRun() func() {
+	return func() {
+		defer logChoice()()
+		shape := mc.Choose(3, mc.Free)
+		mk := func(i int) cemi.Message {
+			switch shape {
+			case 1:
+				m := cemi.LBusmonInd{0x03, 0x01, byte(i), 0xBC, 0x11, byte(i), 0x0A, byte(0x30 + i), 0xE1, 0x00, 0x81}
+				return &m
+			case 2:
+				return &cemi.LRawInd{LRaw: cemi.LRaw{0xBC, 0x11, byte(i), 0x0A, byte(0x40 + i), 0xE1, 0x00, 0x81}}
+			}
+			return MsgTagged(i)
+		}
+		w := vnet.Reset()
+		var ep *vnet.Endpoint
+		w.OnCreate = func(e *vnet.Endpoint) { ep = e }
+		r, err := knx.NewRouter("224.0.23.12:3671", knx.RouterConfig{RetainCount: 2})
+		if err != nil {
+			mc.Log(Note("router failed: " + err.Error()))
+			return
+		}
+		const n = 3
+		lag := mc.Choose(2, mc.Free)
+		var have []cemi.Message
+		read := func() {
+			c0 := mc.RecvC(r.Inbound())
+			c1 := mc.RecvC(mc.After(100 * ms))
+			if mc.Select(false, c0, c1) == 0 && c0.Ok {
+				have = append(have, c0.V)
+			}
+		}
+		for i := 0; i < n; i++ {
+			mc.Log(WireSent{i, deepDump(mk(i))})
+			ep.Inject(pack(&knxnet.RoutingInd{Payload: mk(i)}), nil)
+			mc.Sleep(1 * ms)
+			if lag == 1 && i > 0 {
+				read()
+			}
+		}
+		for len(have) < n {
+			k := len(have)
+			read()
+			if len(have) == k {
+				break
+			}
+		}
+		for i, m := range have {
+			mc.Log(WireGot{i, deepDump(m)})
+		}
+		r.Close()
+		mc.Sleep(1 * ms)
+	}
+}
+
+func routerWireOracle(prop string) func(tr *mc.Trace) []h.Violation {
+	return func(tr *mc.Trace) []h.Violation {
+		vs := generic(tr, prop, true)
+		var sent, got []string
+		for _, e := range tr.Log {
+			switch x := e.V.(type) {
+			case Note:
+				vs = append(vs, h.Violation{Class: prop + ":setup", Msg: string(x)})
+			case WireSent:
+				sent = append(sent, x.Dump)
+			case WireGot:
+				got = append(got, x.Dump)
+			}
+		}
+		if tr.Reason != "main-returned" {
+			return vs
+		}
+		s2, g2 := append([]string{}, sent...), append([]string{}, got...)
+		sort.Strings(s2)
+		sort.Strings(g2)
+		if fmt.Sprint(g2) != fmt.Sprint(s2) {
+			vs = append(vs, h.Violation{Class: prop + ":inbound-wire:received-indications-differ-from-what-the-application-holds", Msg: fmt.Sprintf("routing indications received, in order: %v; the application holds: %v", sent, got)})
+		}
+		return vs
+	}
+}
+
+func init() {
+	register("both", &h.Scenario{Name: "C17-fullstack-router-inbound-three-shapes", Prop: "C17", P: 1, F: 0, D: 1, Run: routerWireRun(), Check: routerWireOracle("C17")})
+	register("both", &h.Scenario{Name: "C14-fullstack-router-inbound-three-shapes", Prop: "C14", P: 1, F: 0, D: 1, Run: routerWireRun(), Check: routerWireOracle("C14")})
 }
